@@ -11,10 +11,11 @@ ALL_ACTS = ["New", "Import", "Delete", "SetDefault", "SetLabel", "ChangePassword
 FAULTS = ["SetFault", "ClearFault"]
 
 
-def cfg_text(import_ids, new_ids, labels, wscrypt, max_obj, max_ops, acts, dev_new, dev_dup, invariants, export, schemes=None, props=True):
+def cfg_text(import_ids, new_ids, labels, wscrypt, max_obj, max_ops, acts, dev_new, dev_dup, invariants, export, schemes=None, props=True,
+             threads=(1,), split=(), oneshot=False, init=None):
     def s(xs):
         return "{" + ", ".join(json.dumps(x) for x in xs) + "}"
-    lines = ["SPECIFICATION Spec", "CONSTANTS",
+    lines = (["INIT %s" % init, "NEXT Next"] if init else ["SPECIFICATION Spec"]) + ["CONSTANTS",
              "  ImportIds = {%s}" % ", ".join(str(i) for i in import_ids),
              "  NewIdSeq <- NewSeq%s" % "".join(str(i) for i in new_ids),
              "  ArgLabels = %s" % s(labels),
@@ -27,10 +28,13 @@ def cfg_text(import_ids, new_ids, labels, wscrypt, max_obj, max_ops, acts, dev_n
              "  Acts = %s" % s(acts),
              "  NewIgnoresWalletScrypt = %s" % ("TRUE" if dev_new else "FALSE"),
              "  DupAddrImport = %s" % ("TRUE" if dev_dup else "FALSE"),
+             "  Threads = {%s}" % ", ".join(str(t) for t in threads),
+             "  Split = %s" % s(list(split)),
+             "  OneShot = %s" % ("TRUE" if oneshot else "FALSE"),
              "VIEW view",
              "INVARIANTS " + " ".join(invariants)]
     if props:
-        lines.append("PROPERTIES FailNoChange")
+        lines.append("PROPERTIES FailNoChange AuthCurrent")
     if export:
         lines += ["CONSTRAINT InitOut", "ACTION_CONSTRAINT Edge"]
     lines.append("CHECK_DEADLOCK FALSE")
@@ -100,7 +104,7 @@ def probe(ctx, binary):
 def tlc_design(ctx, name, **kw):
     """the design (all deviation switches off) must satisfy the property invariants"""
     txt = cfg_text(dev_new=False, dev_dup=False, export=False,
-                   invariants=["TypeOK", "Saved", "Persist", "Opens", "OneDefault"], **kw)
+                   invariants=["TypeOK", "Saved", "Persist", "Opens", "OneDefault", "DefaultListed"], **kw)
     r = _tlccache.run(ctx, "Wallet_MC", "Wallet", name, txt, tags_needed=False)
     if r.status != "ok":
         ctx.infra("TLC did not verify the wallet design (%s): %s %s %s" % (name, r.status, r.violated, r.errors[:2]))
@@ -113,7 +117,7 @@ def tlc_asis(ctx, name, dev, simulate=None, depth=None, **kw):
     """the code as found (deviation switches as probed), with edge export"""
     inv = ["TypeOK", "Saved"]
     if not dev["DupAddrImport"]:
-        inv += ["Persist", "OneDefault"]
+        inv += ["Persist", "OneDefault", "DefaultListed"]
     if not (dev["NewIgnoresWalletScrypt"] and kw["wscrypt"] != "def" and kw["new_ids"]):
         inv.append("Opens")
     txt = cfg_text(dev_new=dev["NewIgnoresWalletScrypt"], dev_dup=dev["DupAddrImport"], export=True, invariants=inv, props=not simulate, **kw)
@@ -213,3 +217,331 @@ def replay(ctx, binary, paths, tag, import_ids, all_ids, labels, wscrypt, dev, o
             # same state, different answer: not a statement of C38 -> the model misdescribes the code
             ctx.infra("model drift: %s answered %s (%s), model %s; path %s" % (name, o["res"], o.get("err"), act["res"], rp["steps"]))
     return n
+
+
+# ------------------------------------------------------------------------------------------------------------------
+# two client threads on one ClientImpl (spec/Wallet.tla: Threads, Split, pend, OneShot; harness conc_test.go)
+# ------------------------------------------------------------------------------------------------------------------
+CONC_ACTS = ["New", "Import", "Delete", "SetDefault", "SetLabel", "ChangePassword", "ChangeScheme", "Open"]
+CONC_SCRYPT = {"n": 4096, "r": 8, "p": 1, "dkLen": 64}   # one key derivation ~ 10-20 ms: the width of a check segment
+NULLOBJ = {"id": 0, "label": "", "dflt": False, "scheme": "", "pwd": "", "enc": ""}
+CORE = ("accts", "objs", "addrIdx", "labelIdx", "dfltPtr", "nnew", "fault")
+ARGS = ("name", "id", "label", "scheme", "pwd", "old", "new")
+
+
+def tla(x):
+    """python value (as exported by ToJson) -> TLA+ expression"""
+    if isinstance(x, bool):
+        return "TRUE" if x else "FALSE"
+    if isinstance(x, int):
+        return str(x)
+    if isinstance(x, str):
+        return json.dumps(x)
+    if isinstance(x, list):
+        return "<<" + ", ".join(tla(e) for e in x) + ">>"
+    if isinstance(x, dict):
+        return "[" + ", ".join("%s |-> %s" % (k, tla(v)) for k, v in x.items()) + "]"
+    raise ValueError(x)
+
+
+def seed_tla(st, max_obj):
+    objs = list(st["objs"]) + [NULLOBJ] * (max_obj - len(st["objs"]))
+    li = "(" + " @@ ".join("%s :> %d" % (json.dumps(l), o) for l, o in sorted(st["labelIdx"].items())) + ")"
+    return ("[accts |-> %s, objs |-> %s, addrIdx |-> %s, labelIdx |-> %s, dfltPtr |-> %d, nnew |-> %d, fault |-> %s]"
+            % (tla(st["accts"]), tla(objs), tla(st["addrIdx"]), li, st["dfltPtr"], st["nnew"], tla(st["fault"])))
+
+
+def core(st, max_obj=None):
+    d = {k: st[k] for k in CORE}
+    if max_obj:
+        d["objs"] = list(st["objs"]) + [NULLOBJ] * (max_obj - len(st["objs"]))
+    return d
+
+
+def pick_seeds(ctx, edges, inits, k):
+    """k prepared wallets for the two-thread run: reachable states of a sequential run (with the shortest call sequence
+    that leads there).  Always: the empty wallet and the smallest two-account wallets with either account as the
+    default; the rest is drawn with the run's seed."""
+    graph, states = {}, {}
+    for e in edges:
+        graph.setdefault(vf.canon(core(e["from"])), []).append(e)
+    dist = {}
+    queue = []
+    for s0 in inits:
+        c = vf.canon(core(s0))
+        dist[c] = []
+        states[c] = s0
+        queue.append(c)
+    while queue:
+        c = queue.pop(0)
+        for e in graph.get(c, []):
+            c2 = vf.canon(core(e["to"]))
+            if c2 not in dist:
+                dist[c2] = dist[c] + [e["act"]]
+                states[c2] = e["to"]
+                queue.append(c2)
+    cands = sorted((c for c in dist if not states[c]["fault"]), key=lambda c: (len(dist[c]), c))
+    sig = lambda st: (len(st["accts"]), st["objs"][st["dfltPtr"] - 1]["id"] if st["dfltPtr"] else 0)
+    fixed, seen = [], set()
+    for c in cands:
+        g = sig(states[c])
+        if g not in seen and (g[0] in (0, 2)):
+            seen.add(g)
+            fixed.append(c)
+    rest = [c for c in cands if c not in fixed]
+    ctx.rng.shuffle(rest)
+    # prefer wallets with two accounts (more calls are enabled, more pairs interfere)
+    rest.sort(key=lambda c: -len(states[c]["accts"]))
+    chosen = (fixed + rest)[:k]
+    return [{"state": states[c], "prefix": dist[c]} for c in chosen]
+
+
+def conc_cfg(kw, split, export, dev):
+    inv = ["TypeOK", "Saved", "Persist", "Opens", "OneDefault", "DefaultListed"]
+    return cfg_text(dev_new=dev["NewIgnoresWalletScrypt"], dev_dup=dev["DupAddrImport"], export=export, invariants=inv, props=True,
+                    threads=(1, 2), split=split, oneshot=True, init="InitSeeds", max_ops=2, acts=CONC_ACTS, **kw)
+
+
+def seeds_module(seeds, max_obj):
+    return ("---- MODULE Wallet_Seeds ----\nEXTENDS Wallet_MC\nSeedStates == {\n  %s }\nInitSeeds == InitFrom(SeedStates)\n====\n"
+            % ",\n  ".join(seed_tla(sd["state"], max_obj) for sd in seeds))
+
+
+def tlc_conc(ctx, seeds, dev, kw):
+    """two client threads, one call each, from every prepared wallet: TLC checks Persist / Opens / OneDefault /
+    DefaultListed / AuthCurrent over every interleaving of the lock segments and exports the edges."""
+    files = {"Wallet_conc.cfg": conc_cfg(kw, ["Import"], True, dev), "Wallet_Seeds.tla": seeds_module(seeds, kw["max_obj"])}
+    r = ctx.tlc("Wallet_Seeds", cfg="Wallet_conc.cfg", files=files, workers=1, timeout=1700)
+    if r.status != "ok":
+        ctx.infra("TLC failed on the two-thread wallet model: %s %s %s" % (r.status, r.violated, r.errors[:2]))
+        return None
+    edges = r.prints.get("EDGE", [])
+    names = {e["act"]["name"] for e in edges}
+    missing = [a for a in CONC_ACTS if a not in names]
+    if missing or not any(e["act"].get("ph") == "act" for e in edges):
+        ctx.infra("vacuous two-thread model run: %s never taken / no split call" % missing)
+    ctx.log("TLC two threads: %d seeds, %d generated, %d distinct, depth %d, %d edges, %.1fs" % (len(seeds), r.generated, r.distinct, r.depth, len(edges), r.wall))
+    return r, edges
+
+
+def split_selftest(ctx, seeds, dev, kw, ops):
+    """the spec can tell a lock-narrowed operation from the design: with the check and the act segment of `op` separated
+    TLC must find an interleaving that violates a C38 invariant (otherwise the two-thread model is toothless)"""
+    found = {}
+    for op in ops:
+        files = {"Wallet_split.cfg": conc_cfg(kw, ["Import", op], False, dev), "Wallet_Seeds.tla": seeds_module(seeds, kw["max_obj"])}
+        r = ctx.tlc("Wallet_Seeds", cfg="Wallet_split.cfg", files=files, timeout=900)
+        if r.status != "violation" or r.violated not in ("Persist", "DefaultListed", "AuthCurrent", "Opens", "OneDefault"):
+            ctx.infra("spec self-test: Split={Import,%s} is not rejected by TLC (%s %s %s)" % (op, r.status, r.violated, r.errors[:2]))
+        found[op] = r.violated
+    ctx.log("spec self-test: separated check/act segments are rejected by TLC: %s" % found)
+    return found
+
+
+def call_of(act):
+    return {k: act[k] for k in ARGS if k in act}
+
+
+def conc_graph(edges):
+    g = {}
+    for e in edges:
+        g.setdefault(vf.canon(e["from"]), []).append(e)
+    return g
+
+
+def outcomes_12(g, st, a, b):
+    """all outcomes of thread 1 calling a and thread 2 calling b from st (thread 1's first segment runs first -- OneShot).
+    Returns {canon((resA, resB, core(final)))} or None if the model cannot make the calls from st."""
+    ca, cb = vf.canon(a), vf.canon(b)
+    out = {}
+    stack = [(st, None, None)]
+    ok = False
+    while stack:
+        cur, ra, rb = stack.pop()
+        if ra is not None and rb is not None:
+            out[vf.canon([ra, rb, core(cur)])] = (ra, rb, cur)
+            continue
+        moved = False
+        for e in g.get(vf.canon(cur), []):
+            c = vf.canon(call_of(e["act"]))
+            fin = e["act"]["res"] != "pending"
+            if e["who"] == 1 and ra is None and c == ca:
+                stack.append((e["to"], e["act"]["res"] if fin else None, rb))
+                moved = True
+            elif e["who"] == 2 and rb is None and c == cb:
+                stack.append((e["to"], ra, e["act"]["res"] if fin else None))
+                moved = True
+        if not moved:
+            return None   # a call that the bounded model cannot make / complete here
+    return out
+
+
+def long_first_segment(st, a):
+    """the model's answer to: does the first lock segment of call a contain a key derivation (scrypt)?"""
+    if a["name"] not in ("Delete", "ChangePassword", "Open"):
+        return False
+    o = st["addrIdx"][a["id"] - 1]
+    if not o:
+        return False
+    if a["name"] == "Delete":
+        return not st["objs"][o - 1]["dflt"]
+    if a["name"] == "ChangePassword":
+        return a["old"] != a["new"]
+    return True
+
+
+def conc_cases(ctx, seeds, edges, budget):
+    """ordered pairs (A issued first, B issued while A is in flight) to run on the real wallet.  A pair is kept when the
+    two calls interfere in the model (A;B and B;A differ), plus a seeded sample of the commuting ones; every ordered pair
+    of operation names is wanted."""
+    g = conc_graph(edges)
+    inter, commute = [], []
+    for si, sd in enumerate(seeds):
+        st0 = None
+        for c, es in g.items():
+            pass
+        # the exported start state of this seed (pend idle)
+        for e in edges:
+            if e["from"]["pend"][0]["pc"] == "idle" and e["from"]["pend"][1]["pc"] == "idle" and e["who"] == 1 \
+                    and vf.canon(core(e["from"])) == vf.canon(core(sd["state"], len(e["from"]["objs"]))):
+                st0 = e["from"]
+                break
+        if st0 is None:
+            ctx.infra("two-thread model: prepared wallet %d not among the exported initial states" % si)
+            continue
+        calls = {}
+        for e in g.get(vf.canon(st0), []):
+            if e["who"] == 1:
+                calls[vf.canon(call_of(e["act"]))] = call_of(e["act"])
+        calls = [calls[k] for k in sorted(calls)]
+        for a in calls:
+            for b in calls:
+                if a["name"] == "New" and b["name"] == "New":
+                    continue   # the harness names a created account by the model's id, which depends on the order
+                o_ab, o_ba = outcomes_12(g, st0, a, b), outcomes_12(g, st0, b, a)
+                if o_ab is None or o_ba is None:
+                    continue
+                allowed = {}
+                for ra, rb, fin in o_ab.values():
+                    allowed[vf.canon([ra, rb, core(fin)])] = (ra, rb, fin)
+                for rb, ra, fin in o_ba.values():
+                    allowed[vf.canon([ra, rb, core(fin)])] = (ra, rb, fin)
+                case = {"seed": si, "a": a, "b": b, "allowed": allowed, "long": long_first_segment(st0, a), "st0": st0}
+                (inter if len(allowed) > 1 else commute).append(case)
+    ctx.rng.shuffle(inter)
+    ctx.rng.shuffle(commute)
+    # every ordered pair of operation names first, interfering pairs before commuting ones, long-first-segment first
+    chosen, names = [], set()
+    pool = sorted(inter, key=lambda c: not c["long"]) + commute
+    for c in pool:
+        k = (c["a"]["name"], c["b"]["name"])
+        if k not in names:
+            names.add(k)
+            chosen.append(c)
+    ids = {id(c) for c in chosen}
+    for c in pool:
+        if len(chosen) >= budget:
+            break
+        if id(c) not in ids:
+            chosen.append(c)
+    return chosen[:max(budget, len(names))], len(inter), len(commute), names
+
+
+def replay_conc(ctx, binary, seeds, cases, kw, timeout=1500):
+    """run the pairs on the real ClientImpl from two goroutines and judge every attempt"""
+    pwds = ["p", "q"]
+    all_ids = sorted(kw["import_ids"] + kw["new_ids"])
+    labels = sorted(set(kw["labels"]) | {l + "_1" for l in kw["labels"] if l})
+    wscrypt = kw["wscrypt"]
+    inp = {"scrypt": CONC_SCRYPT, "importIds": kw["import_ids"], "allIds": all_ids, "labels": [l for l in labels if l != ""],
+           "pwds": pwds, "opensLive": True, "workers": min(4, int(os.environ.get("VERIF_WORKERS", "4"))), "paths": [], "tries": 3,
+           "cases": [{"prefix": [call_of(x) for x in seeds[c["seed"]]["prefix"]], "want": [x["res"] for x in seeds[c["seed"]]["prefix"]],
+                      "a": c["a"], "b": c["b"], "long": c["long"]} for c in cases]}
+    fin = os.path.join(ctx.scratch, "conc.in.json")
+    fout = os.path.join(ctx.scratch, "conc.out.ndjson")
+    vf.write_json(fin, inp)
+    rc, out = ctx.run_bin(binary, "TestVerifWalletConc", env={"VERIF_IN": fin, "VERIF_OUT": fout}, timeout=timeout)
+    stat = {"pairs": len(cases), "attempts": 0, "long_pairs": 0, "forced_overlap": 0, "overlapped": 0, "name_pairs": 0}
+    if rc != 0:
+        if "fatal error: concurrent map" in out:
+            # the Go runtime itself saw two wallet calls inside the same critical section
+            ctx.violation("Conc:fatal-concurrent-map-access", out[out.find("fatal error"):][:400], {"cases": "see harness output"})
+        else:
+            ctx.infra("two-thread wallet harness failed rc=%s" % rc)
+        return stat
+    obs = vf.read_ndjson(fout)
+    if obs and obs[0].get("case") == -1:
+        ctx.infra("two-thread wallet harness: %s" % obs[0].get("err"))
+        return stat
+    done = set()
+    forced = set()
+    for o in obs:
+        c = cases[o["case"]]
+        an, bn = c["a"]["name"], c["b"]["name"]
+        pair = "%s|%s" % (an, bn)
+        rp = {"config": {"scrypt": CONC_SCRYPT, "importIds": kw["import_ids"], "allIds": all_ids},
+              "prefix": inp["cases"][o["case"]]["prefix"], "thread1": c["a"], "thread2_issued_while_1_in_flight": c["b"],
+              "observed": {k: o.get(k) for k in ("resA", "errA", "resB", "errB", "overlapped", "first", "modeStart", "modeSeen", "seenUs", "dkUs")}}
+        if o.get("drift"):
+            ctx.infra("two-thread replay: %s" % o["drift"])
+            continue
+        stat["attempts"] += 1
+        done.add(o["case"])
+        if o["first"]:
+            forced.add(o["case"])
+        if len(ctx.violations) > 40:
+            continue
+        if "panic" in (o["resA"], o["resB"]) or o.get("re") is None:
+            ctx.violation("Conc:%s:crash-or-unreadable-file" % pair, {"errA": o.get("errA"), "errB": o.get("errB"), "err": o.get("err")}, rp)
+            continue
+        live, re = o["live"], o["re"]
+        # ---- the property, directly on what the real wallet shows after both calls returned ------------------
+        # (P1) the wallet reopened from its file lists the same accounts with the same metadata (incl. encrypted keys)
+        a_, b_ = dict(live), dict(re)
+        a_.pop("opens"), b_.pop("opens")
+        if a_ != b_:
+            k = first_diff(a_, b_)[0]
+            ctx.violation("Conc:Persist:%s:%s" % (pair, k), {"live": a_[k], "reloaded": b_[k], "resA": o["resA"], "resB": o["resB"]}, rp)
+        # (P2) the default account is a listed account, in memory and in the file; what GetDefaultAccount opens is listed
+        for nm, v in (("live", live), ("reloaded", re)):
+            ids = [m["id"] for m in v["list"]]
+            if (v["dflt"]["id"] != 0 and v["dflt"]["id"] not in ids) or (ids and v["dflt"]["id"] == 0):
+                ctx.violation("Conc:DefaultListed:%s:%s" % (pair, nm), {"default": v["dflt"], "listed": ids}, rp)
+        if not o["dfltListed"]:
+            ctx.violation("Conc:DefaultListed:%s:GetDefaultAccount-opens-unlisted-account" % pair, {"passwords": o["dfltOpens"]}, rp)
+        # (P3) a listed account opens with exactly one password, an unlisted (deleted) one with none
+        ids = [m["id"] for m in live["list"]]
+        for x in all_ids:
+            got = live["opens"][str(x)]
+            if (x in ids and (len(got) != 1 or got[0].startswith("WRONGKEY"))) or (x not in ids and got):
+                ctx.violation("Conc:Opens:%s:%s-opened-by-%s" % (pair, "listed" if x in ids else "unlisted", "+".join(got) or "none"),
+                              {"account": x, "opened_by": got, "listed": ids}, rp)
+        # ---- the real wallet against the two-thread model: answers + final view must be one of the model's outcomes
+        real = strip(live)
+        hit = None
+        for ra, rb, fin in c["allowed"].values():
+            if ra == o["resA"] and rb == o["resB"] and mem_view(fin, all_ids, pwds, wscrypt) == real:
+                hit = fin
+                break
+        if hit is None:
+            views = [(ra, rb) for ra, rb, _ in c["allowed"].values()]
+            same_view = [(ra, rb) for ra, rb, fin in c["allowed"].values() if mem_view(fin, all_ids, pwds, wscrypt) == real]
+            # e.g. a delete / password change that was authorised by a password which was no longer current when it took effect
+            ctx.violation("Conc:NotLinearizable:%s" % pair,
+                          {"answers": [o["resA"], o["resB"]], "model_answers": views, "model_answers_with_this_final_view": same_view,
+                           "live_default": live["dflt"], "live_list": live["list"], "opens": live["opens"]}, rp)
+        elif strip(re, False) != {k: v for k, v in file_view(hit, all_ids, pwds, wscrypt).items() if k != "opens"}:
+            ctx.violation("Conc:Persist:%s:reloaded-differs-from-model" % pair, {"reloaded": strip(re, False)}, rp)
+    for ci in done:
+        if cases[ci]["long"]:
+            stat["long_pairs"] += 1
+            if ci in forced:
+                stat["forced_overlap"] += 1
+    stat["overlapped"] = len({o["case"] for o in obs if o.get("overlapped")})
+    stat["name_pairs"] = len({(cases[ci]["a"]["name"], cases[ci]["b"]["name"]) for ci in done})
+    if len(done) != len(cases):
+        ctx.infra("two-thread replay: %d of %d pairs produced an observation" % (len(done), len(cases)))
+    if stat["long_pairs"] and stat["forced_overlap"] * 10 < stat["long_pairs"] * 7:
+        ctx.infra("two-thread replay: the second call was engaged during the first call's check segment in only %d of %d pairs"
+                  % (stat["forced_overlap"], stat["long_pairs"]))
+    return stat
